@@ -108,8 +108,12 @@ func (g *cleanGen) imprt(i int, importer string) *jwt.Import {
 			im.Subject, grant = jwt.Subject(base+".foo"), base+".>"
 		case 1:
 			im.Subject, grant = jwt.Subject(base+".*.bar"), base+".*.bar"
-			if g.rng.Intn(2) == 0 {
+			switch g.rng.Intn(4) {
+			case 0:
 				im.LocalSubject = jwt.RenamingSubject("loc" + base + ".$1.x")
+			case 1:
+				// (literal tokens that merely CONTAIN a star or a dollar sign are plain text: only whole tokens count)
+				im.LocalSubject = jwt.RenamingSubject("lo*c" + base + ".$1.x*.$$")
 			}
 		default:
 			im.Subject, grant = jwt.Subject(base+".a.>"), base+".>"
@@ -416,7 +420,15 @@ func allInjections() []injection {
 			if i == nil {
 				return false
 			}
-			switch g.rng.Intn(5) {
+			switch g.rng.Intn(7) {
+			case 5: // a star inside a literal token does not make up for a missing wildcard
+				i.Subject = "w.*.z"
+				i.LocalSubject = jwt.RenamingSubject([]string{"loc.x*", "loc.*x", "loc.a*b"}[g.rng.Intn(3)])
+				i.Token = ""
+			case 6:
+				i.Subject = "w.*.*.z"
+				i.LocalSubject = jwt.RenamingSubject([]string{"loc.**", "loc.$1.x*", "l*c.*.y"}[g.rng.Intn(3)])
+				i.Token = ""
 			case 0:
 				i.LocalSubject = "has space"
 				if strings.Contains(string(i.Subject), "*") || strings.HasSuffix(string(i.Subject), ">") {
